@@ -23,7 +23,7 @@ META = {
     "assumptions": [
         "floats as exact reals", f"nodes of the two tessellations either coincide exactly or differ by >= {GAP}; cells "
         f"not shorter than {GAP} (well separated from the tolerance {TOL})",
-        "segment embedded along the x-axis and along the rational direction (3/5, 4/5, 0)",
+        "segments of the second tessellation also listed in three orders that do not follow the line", "segment embedded along the x-axis and along the rational direction (3/5, 4/5, 0)",
         "quick: 1-3 x 1-3 cells along the x-axis (not 3x3), 1x2 and 2x1 along the oblique direction; thorough: 2x2 oblique, up to 3x4 along x, up to 2x3 oblique",
     ],
     "stubs": ["cell volumes / nodes of the 1-d grids assigned by the harness (compute_geometry is C19)"],
@@ -38,7 +38,11 @@ def shards(tier, seed):
         cfgs = [(2, 2, "x"), (2, 3, "x"), (3, 2, "x"), (1, 3, "x"), (3, 1, "x"), (3, 3, "x"),
                 (2, 2, "oblique"), (1, 2, "oblique"), (2, 1, "oblique"), (1, 3, "oblique"), (2, 3, "oblique"),
                 (3, 4, "x")]
-    return [{"na": na, "nb": nb, "dir": d} for na, nb, d in cfgs]
+    out = [{"na": na, "nb": nb, "dir": d} for na, nb, d in cfgs]
+    # the segments of the second tessellation listed in an order that does not follow the line
+    for na, nb, perm in ((1, 3, [1, 2, 0]), (2, 3, [2, 0, 1]), (2, 3, [0, 2, 1])) + (((3, 3, [1, 2, 0]),) if tier != "quick" else ()):
+        out.append({"na": na, "nb": nb, "dir": "x", "perm": perm})
+    return out
 
 
 def configure(cfg, tier):
@@ -87,11 +91,12 @@ def harness(ctx, shard):
     pa, pb = _embed(xa, shard["dir"]), _embed(xb, shard["dir"])
     la = np.vstack([np.arange(na), np.arange(1, na + 1)])
     lb = np.vstack([np.arange(nb), np.arange(1, nb + 1)])
-    isect = pp.intersections.line_tessellation(pa, pb, la, lb)
+    perm = shard.get("perm") or list(range(nb))
+    isect = pp.intersections.line_tessellation(pa, pb, la, lb[:, perm])
     W = np.zeros((na, nb), dtype=object)
     for i, j, w in isect:
         ctx.check("overlap-non-negative", lift(w) >= 0, case)
-        W[i, j] = W[i, j] + w
+        W[i, perm[j]] = W[i, perm[j]] + w
     for i in range(na):
         ctx.check("overlaps-sum-to-cell-measure(first)", z3.Sum([lift(W[i, j]) for j in range(nb)])
                   == lift(xa[i + 1]) - lift(xa[i]), case)
@@ -149,10 +154,11 @@ def replay_case(case):
     la = np.vstack([np.arange(na), np.arange(1, na + 1)])
     lb = np.vstack([np.arange(nb), np.arange(1, nb + 1)])
     W = np.zeros((na, nb))
-    for i, j, w in pp.intersections.line_tessellation(pa, pb, la, lb):
+    perm = shard.get("perm") or list(range(nb))
+    for i, j, w in pp.intersections.line_tessellation(pa, pb, la, lb[:, perm]):
         if w < -1e-12:
             return True, f"negative overlap {w}"
-        W[i, j] += w
+        W[i, perm[j]] += w
     if not np.allclose(W.sum(axis=1), np.diff(xa), atol=1e-9) or not np.allclose(W.sum(axis=0), np.diff(xb), atol=1e-9):
         return True, f"overlaps {W.tolist()} do not sum to the cell lengths {np.diff(xa).tolist()} / {np.diff(xb).tolist()}"
     ga, gb = pp.TensorGrid(xa), pp.TensorGrid(xb)
